@@ -253,6 +253,8 @@ fn c18_configs(tier: Tier) -> Vec<uring::UCfg> {
             latency_us: 1000,
             depth: tier.pick(7, 9),
             page_cache: false,
+            capacity: None,
+            odirect: false,
             letters: vec![
                 A_READ0, A_READ2, A_WRITE0, A_WRITE3, A_FSYNC, A_CANCEL_LAST, A_CANCEL_UNKNOWN, A_BADFLAG, A_READ_DUP, A_SUBMIT0,
                 A_ADV_HALF, A_ADV_FULL, A_DRAIN0, A_DRAIN_ONE0, A_CLOSE, A_CRASH,
@@ -265,6 +267,8 @@ fn c18_configs(tier: Tier) -> Vec<uring::UCfg> {
             latency_us: 1000,
             depth: tier.pick(7, 9),
             page_cache: false,
+            capacity: None,
+            odirect: false,
             letters: vec![A_WRITE0, A_READ0, A_R1_WRITE1, A_R1_READ0, A_SUBMIT0, A_SUBMIT1, A_ADV_FULL, A_DRAIN0, A_DRAIN1, A_CRASH],
         },
         UCfg {
@@ -274,9 +278,36 @@ fn c18_configs(tier: Tier) -> Vec<uring::UCfg> {
             latency_us: 1000,
             depth: tier.pick(6, 8),
             page_cache: true,
+            capacity: None,
+            odirect: false,
             letters: vec![A_READ0, A_WRITE0, A_WRITE3, A_FSYNC, A_CANCEL_LAST, A_CANCEL_DONE, A_SUBMIT0, A_ADV_FULL, A_DRAIN0, A_DRAIN_ONE0, A_CLOSE],
         },
     ];
+    // a capacity limit: writes past end-of-file are charged for the hole they leave, exactly
+    // as the synchronous write_at charges them
+    v.push(UCfg {
+        name: "capacity-8-bytes".into(),
+        rings: 1,
+        depth_ring: 4,
+        latency_us: 1000,
+        depth: tier.pick(7, 9),
+        page_cache: false,
+        capacity: Some(8),
+        odirect: false,
+        letters: vec![A_WRITE0, A_WRITE3, A_WRITE_HOLE, A_READ0, A_FSYNC, A_SUBMIT0, A_ADV_FULL, A_DRAIN0, A_DRAIN_ONE0, A_CRASH],
+    });
+    // O_DIRECT with a page cache configured: every read pays the full latency, hit or not
+    v.push(UCfg {
+        name: "odirect-with-page-cache".into(),
+        rings: 1,
+        depth_ring: 4,
+        latency_us: 1000,
+        depth: tier.pick(7, 8),
+        page_cache: true,
+        capacity: None,
+        odirect: true,
+        letters: vec![A_READ0, A_READ2, A_WRITE0, A_SUBMIT0, A_ADV_HALF, A_ADV_FULL, A_DRAIN0, A_DRAIN_ONE0],
+    });
     if tier == Tier::Thorough {
         v.push(UCfg {
             name: "one-ring-d4".into(),
@@ -285,6 +316,8 @@ fn c18_configs(tier: Tier) -> Vec<uring::UCfg> {
             latency_us: 1000,
             depth: 8,
             page_cache: false,
+            capacity: None,
+            odirect: false,
             letters: vec![A_READ0, A_WRITE0, A_WRITE3, A_FSYNC, A_CANCEL_LAST, A_READ_DUP, A_SUBMIT0, A_ADV_FULL, A_DRAIN0, A_DRAIN_ONE0],
         });
     }
